@@ -27,6 +27,8 @@ func runC08(p *eng.Prog, r *eng.Report, tier string) {
 	// C08.10 a received stream error is returned as such: its decoder consumes
 	// the whole element (E-dec3/E-dec6), otherwise Serve ends with a decoding error
 	stanzaIsTable(c, "C08.12")
+	serveCtxRootedInBackground(c, "C08.16")
+	c04AdaptersReportEveryFault(c, "C08.17")
 	depthCountersDoNotWrap(c, "C08.15")
 	// C08.14 "once per top-level element": a response whose waiter has gone
 	// (or that matches no waiter) still reaches the handler (= C06.2)
